@@ -321,6 +321,7 @@ func H_C08_Reopen() {
 // special paths: /dev/null, stdout, stderr
 func H_C13_file_specials() {
 	fsInit()
+	verifCaptureStd()
 	s := &FileSink{FileName: "x.log"}
 	data := nondetString()
 	e := &Event{Type: "t", Formatted: map[string][]byte{"json": []byte(data)}}
